@@ -231,7 +231,10 @@ Read(cs) ==
 \* every string over ALPHA up to MAXLEN classes: grown one class at a time (a set of all of them would exceed TLC's
 \* bound on constructed sets beyond a million strings), each printed once with the reader's verdict
 Init == str = <<>> /\ done = FALSE
-Grow == ~done /\ Len(str) < MAXLEN /\ \E c \in ALPHA : str' = Append(str, c) /\ UNCHANGED done
+\* (a configuration file does not process escapes in string constants: "\n" there is a backslash and an n.  The three
+\* characters that need an escape are therefore NAMED in ALPHA and turned into the character here)
+Ch(a) == CASE a = "NL" -> "\n" [] a = "DQ" -> "\"" [] a = "BS" -> "\\" [] OTHER -> a
+Grow == ~done /\ Len(str) < MAXLEN /\ \E c \in ALPHA : str' = Append(str, Ch(c)) /\ UNCHANGED done
 Emit == /\ ~done /\ done' = TRUE /\ UNCHANGED str
         /\ LET r == Read(str) IN PrintT(ToJson([s |-> str, ok |-> r.ok, trees |-> r.trees, toks |-> [j \in 1..Len(Lex(str)) |-> Lex(str)[j].ty]]))
 Next == Grow \/ Emit \/ (done /\ UNCHANGED vars)
